@@ -407,7 +407,9 @@ static std::vector<std::string> id_set_alphabet(bool thorough, long seed) {
 static const char* HIST_ALPHABET[] = {
     "empty", "arith:0:1:4", "arith:0:1:40", "arith:4096:16:3", "arith:4096:16:30",
     "arith:4096:16:200", "arith:8192:24:17", "rand:5:9", "rand:6:90",
-    "two:0:1:5:1099511627776:8:5", "multi:4096:16:12", "arith:0:281474976710656:20"};
+    "two:0:1:5:1099511627776:8:5", "multi:4096:16:12", "arith:0:281474976710656:20",
+    // other ids, same number of classes as an entry above (30, 30, 4)
+    "arith:8192:24:30", "rand:7:30", "arith:64:8:4"};
 
 int main(int argc, char** argv) {
     std::string mode = argc > 1 ? argv[1] : "sets";
